@@ -1,8 +1,8 @@
-(* Properties_C07.v -- C07: abort and stop leave a reusable runtime (state part; the "returns after finitely many steps"
-   part is PipeLive's bounded-progress theorem, see C07_abort_progress below).
+(* Properties_C07.v -- C07: abort and stop leave a reusable runtime and return after finitely many steps of the workers
+   (state part first; the progress certificate of the wind-down at the end).
    Model and reachability as in Properties_C04.v. *)
 From Coq Require Import List Bool Arith NArith.
-From Pipe Require Import PipeModel PipeInvDefs PipeStep PipeSysProps PipeExamples.
+From Pipe Require Import PipeModel PipeInvDefs PipeStep PipeSysProps PipeLive PipeLiveSys PipeExamples.
 Import ListNotations.
 
 (* when acquire_abort (or acquire_stop) returns: the runtime is Armed, no API call is in progress, and for every
@@ -40,6 +40,62 @@ Example C07_example_abort :
               | Some y' => let s := st0 y' in valid s && aborted s && Nat.leb 1 (length (stored s)) && Nat.leb (length (stored s)) (length (delivered s))
               | None => false
               end
+  | None => false
+  end = true.
+Proof. vm_compute. reflexivity. Qed.
+
+(* ---- "returns after finitely many steps": the progress certificate of the wind-down (PipeLive.v).  Phase Ph: acquire_stop
+   is waiting for the workers, writes are refused, the source has been told to stop or is gone -- entered by the refusal of
+   writes that acquire_abort / acquire_shutdown / the error path of acquire_start issue (C07_abort_enters_phase); it lasts
+   until the client re-enables writes after joining all three workers (C07_winddown_phase_stable).  During the phase every
+   event of a worker thread strictly decreases `measure`, except the sink's polls of its queue while it has not been told to
+   stop or while nothing mapped is old enough to be written, and the source's join marker (C07_winddown_progress); a poll
+   adds at most 2 (C07_winddown_poll_bound); the client's own events leave it unchanged (C07_winddown_client_neutral); and
+   while a worker is alive some worker event that decreases the measure is enabled: no deadlock (C07_winddown_no_deadlock).
+   So the number of non-poll worker events of the phase is bounded by the measure at its start, and the polls end because
+   the finitely many steps of source and filter raise the sink's stop flag.  Remaining assumptions: the OS schedules enabled
+   threads (fairness), a blocked channel_write_map returns once writes are refused (C03), virtual time passes. *)
+Theorem C07_abort_enters_phase : forall s s', step_stream s ACli (Accept false) = Some s' -> Ph s'.
+Proof. exact abort_enters_phase. Qed.
+Print Assumptions C07_abort_enters_phase.
+
+Theorem C07_winddown_progress : forall y i a e s',
+  reachable y -> let s := stream_of y i in
+  Ph s -> step_stream s a e = Some s' -> a <> ACli -> measure s' < measure s \/ poll_event s a e = true.
+Proof. exact winddown_progress. Qed.
+Print Assumptions C07_winddown_progress.
+
+Theorem C07_winddown_poll_bound : forall y i a e s',
+  reachable y -> let s := stream_of y i in
+  Ph s -> step_stream s a e = Some s' -> poll_event s a e = true -> measure s' <= measure s + 2.
+Proof. exact winddown_poll_bound. Qed.
+Print Assumptions C07_winddown_poll_bound.
+
+Theorem C07_winddown_client_neutral : forall y i e s',
+  reachable y -> let s := stream_of y i in
+  Ph s -> step_stream s ACli e = Some s' -> e <> Accept true -> measure s' = measure s.
+Proof. exact winddown_client_neutral. Qed.
+Print Assumptions C07_winddown_client_neutral.
+
+Theorem C07_winddown_phase_stable : forall y i a e s',
+  reachable y -> let s := stream_of y i in
+  Ph s -> step_stream s a e = Some s' -> Ph s' \/ (a = ACli /\ e = Accept true).
+Proof. exact winddown_phase_stable. Qed.
+Print Assumptions C07_winddown_phase_stable.
+
+Theorem C07_winddown_no_deadlock : forall y i,
+  reachable y -> let s := stream_of y i in
+  Ph s -> workers_idle s = false ->
+  exists a e s', a <> ACli /\ step_stream s a e = Some s' /\ measure s' < measure s.
+Proof. exact winddown_no_deadlock. Qed.
+Print Assumptions C07_winddown_no_deadlock.
+
+(* the phase is entered with live workers in the abort logged from the real runtime; the measure there lies between 1 and 200 *)
+Example C07_example_phase :
+  match after tr_abort after_abort_refusal with
+  | Some y => let s := st0 y in
+      (match c_stop s with CWaitJoin => true | _ => false end) && negb (accepting s) && src_stopping s && negb (workers_idle s)
+      && Nat.leb 1 (measure s) && Nat.leb (measure s) 200
   | None => false
   end = true.
 Proof. vm_compute. reflexivity. Qed.
